@@ -88,6 +88,24 @@ Notation fresh_atom := (fresh_atom meth).
 Notation fresh_var := (fresh_var meth).
 Notation fresh_args := (fresh_args meth).
 
+(* the nodes of the knowledge base: any predicates closed under taking sub-nodes *)
+Variable NE : expr -> Prop.
+Variable NA : atom -> Prop.
+Variable NV : var -> Prop.
+Variable NL : elist -> Prop.
+Hypothesis NE_atom : forall a, NE (EAtom a) -> NA a.
+Hypothesis NE_paren : forall n e, NE (EParen n e) -> NE e.
+Hypothesis NE_bin : forall o l r, NE (EBin o l r) -> NE l /\ NE r.
+Hypothesis NA_var : forall x, NA (AVar x) -> NV x.
+Hypothesis NA_func : forall f l, NA (AFunc f l) -> NL l.
+Hypothesis NA_method : forall a f l, NA (AMethod a f l) -> NA a /\ NL l.
+Hypothesis NA_member : forall a n, NA (AMember a n) -> NA a.
+Hypothesis NA_sel : forall a e, NA (ASel a e) -> NA a /\ NE e.
+Hypothesis NA_neg : forall a, NA (ANeg a) -> NA a.
+Hypothesis NV_member : forall x n, NV (VMember x n) -> NV x.
+Hypothesis NV_sel : forall x e, NV (VSel x e) -> NV x /\ NE e.
+Hypothesis NL_cons : forall e l, NL (ECons e l) -> NE e /\ NL l.
+
 (* side-effect free expressions: no control built-in, no mutating method *)
 Fixpoint pure_expr (e : expr) : bool :=
   match e with
@@ -116,8 +134,8 @@ with pure_elist (l : elist) : bool :=
 
 (* every remembered value of a side-effect free node is its from-scratch value on the current facts *)
 Definition memo_sound (s : estate) : Prop :=
-  (forall e v, In (e, v) (es_mexpr s) -> pure_expr e = true -> fresh_expr (es_facts s) e = Ok v) /\
-  (forall a v, In (a, v) (es_matom s) -> pure_atom a = true -> fresh_atom (es_facts s) a = Ok v).
+  (forall e v, In (e, v) (es_mexpr s) -> pure_expr e = true -> NE e /\ fresh_expr (es_facts s) e = Ok v) /\
+  (forall a v, In (a, v) (es_matom s) -> pure_atom a = true -> NA a /\ fresh_atom (es_facts s) a = Ok v).
 
 (* evaluation of a pure node changes nothing but the memo and the call counters *)
 Definition frame (s s' : estate) : Prop := es_facts s' = es_facts s /\ es_fx s' = es_fx s.
@@ -126,15 +144,15 @@ Lemma frame_refl : forall s, frame s s. Proof. split; reflexivity. Qed.
 Lemma frame_trans : forall a b c, frame a b -> frame b c -> frame a c.
 Proof. intros a b c [A1 A2] [B1 B2]. split; congruence. Qed.
 
-Lemma memo_sound_expr : forall s e v, memo_sound s -> (pure_expr e = true -> fresh_expr (es_facts s) e = Ok v) -> memo_sound (memo_expr s e v).
+Lemma memo_sound_expr : forall s e v, memo_sound s -> NE e -> (pure_expr e = true -> fresh_expr (es_facts s) e = Ok v) -> memo_sound (memo_expr s e v).
 Proof.
-  intros s e v [He Ha] H. split; simpl.
+  intros s e v [He Ha] Hn H. split; simpl.
   - intros e' v' [E|Hin] Hp; [inversion E; subst; auto | auto].
   - exact Ha.
 Qed.
-Lemma memo_sound_atom : forall s a v, memo_sound s -> (pure_atom a = true -> fresh_atom (es_facts s) a = Ok v) -> memo_sound (memo_atom s a v).
+Lemma memo_sound_atom : forall s a v, memo_sound s -> NA a -> (pure_atom a = true -> fresh_atom (es_facts s) a = Ok v) -> memo_sound (memo_atom s a v).
 Proof.
-  intros s a v [He Ha] H. split; simpl.
+  intros s a v [He Ha] Hn H. split; simpl.
   - exact He.
   - intros a' v' [E|Hin] Hp; [inversion E; subst; auto | auto].
 Qed.
@@ -209,16 +227,16 @@ Proof.
 Qed.
 
 Definition P_expr (e : expr) : Prop :=
-  pure_expr e = true -> forall s r s', memo_sound s -> eval_expr e s = (r, s') ->
+  pure_expr e = true -> NE e -> forall s r s', memo_sound s -> eval_expr e s = (r, s') ->
   r = fresh_expr (es_facts s) e /\ frame s s' /\ memo_sound s'.
 Definition P_atom (a : atom) : Prop :=
-  pure_atom a = true -> forall s r s', memo_sound s -> eval_atom a s = (r, s') ->
+  pure_atom a = true -> NA a -> forall s r s', memo_sound s -> eval_atom a s = (r, s') ->
   r = fresh_atom (es_facts s) a /\ frame s s' /\ memo_sound s'.
 Definition P_var (x : var) : Prop :=
-  pure_var x = true -> forall s r s', memo_sound s -> eval_var x s = (r, s') ->
+  pure_var x = true -> NV x -> forall s r s', memo_sound s -> eval_var x s = (r, s') ->
   r = fresh_var (es_facts s) x /\ frame s s' /\ memo_sound s'.
 Definition P_elist (l : elist) : Prop :=
-  pure_elist l = true -> forall s r s', memo_sound s -> eval_args l s = (r, s') ->
+  pure_elist l = true -> NL l -> forall s r s', memo_sound s -> eval_args l s = (r, s') ->
   r = fresh_args (es_facts s) l /\ frame s s' /\ memo_sound s'.
 
 (* constructor-wise equations of the SPEC evaluator *)
@@ -286,28 +304,31 @@ Theorem eval_agrees :
 Proof.
   apply syntax_mutind; unfold P_expr, P_atom, P_var, P_elist.
   - (* EAtom *)
-    intros a IHa Hp s r s' Hs H. rewrite eval_expr_unfold in H; unfold eval_expr_miss in H.
+    intros a IHa Hp Hn s r s' Hs H. rewrite eval_expr_unfold in H; unfold eval_expr_miss in H.
+    pose proof (NE_atom _ Hn) as Hna.
     destruct (lookup_expr (es_mexpr s) (EAtom a)) as [v|] eqn:L.
     { inversion H; subst r s'. fin. eapply memo_hit_expr; eauto. }
     destruct (eval_atom a s) as [ra s1] eqn:Ea.
-    destruct (IHa Hp s ra s1 Hs Ea) as (Hr & Hf & Hs1). rewrite fr_EAtom.
+    destruct (IHa Hp Hna s ra s1 Hs Ea) as (Hr & Hf & Hs1). rewrite fr_EAtom.
     destruct ra as [v| |]; inversion H; subst r s'; fin.
     apply memo_sound_expr; auto. intros _. destruct Hf as [Hf _]. rewrite Hf, fr_EAtom. auto.
   - (* EParen *)
-    intros neg e IHe Hp s r s' Hs H. rewrite eval_expr_unfold in H; unfold eval_expr_miss in H.
+    intros neg e IHe Hp Hn s r s' Hs H. rewrite eval_expr_unfold in H; unfold eval_expr_miss in H.
+    pose proof (NE_paren _ _ Hn) as Hne.
     destruct (lookup_expr (es_mexpr s) (EParen neg e)) as [v|] eqn:L.
     { inversion H; subst r s'. fin. eapply memo_hit_expr; eauto. }
     destruct (eval_expr e s) as [re s1] eqn:Ee. simpl in Hp.
-    destruct (IHe Hp s re s1 Hs Ee) as (Hr & Hf & Hs1). rewrite fr_EParen, <- Hr.
+    destruct (IHe Hp Hne s re s1 Hs Ee) as (Hr & Hf & Hs1). rewrite fr_EParen, <- Hr.
     destruct re as [v| |]; inversion H; subst r s'; fin.
     apply memo_sound_expr; auto. intros _. destruct Hf as [Hf _]. rewrite Hf, fr_EParen, <- Hr. reflexivity.
   - (* EBin *)
-    intros o l IHl r0 IHr Hp s r s' Hs H. rewrite eval_expr_unfold in H; unfold eval_expr_miss in H.
+    intros o l IHl r0 IHr Hp Hn s r s' Hs H. rewrite eval_expr_unfold in H; unfold eval_expr_miss in H.
+    destruct (NE_bin _ _ _ Hn) as [Hnl Hnr].
     simpl in Hp. apply andb_prop in Hp. destruct Hp as [Hpl Hpr].
     destruct (lookup_expr (es_mexpr s) (EBin o l r0)) as [v|] eqn:L.
     { inversion H; subst r s'. fin. eapply memo_hit_expr; eauto. simpl. rewrite Hpl, Hpr. reflexivity. }
     destruct (eval_expr l s) as [lres s1] eqn:El.
-    destruct (IHl Hpl s lres s1 Hs El) as (Hrl & Hfl & Hs1).
+    destruct (IHl Hpl Hnl s lres s1 Hs El) as (Hrl & Hfl & Hs1).
     assert (Efx1: es_facts s1 = es_facts s) by apply Hfl.
     rewrite fr_EBin, <- Hrl.
     destruct (bin_left_fail o lres) as [rf|] eqn:Bf.
@@ -317,32 +338,34 @@ Proof.
     { inversion H; subst r s'. fin.
       apply memo_sound_expr; auto. intros _. rewrite Efx1, fr_EBin, <- Hrl, Bf, Bs. reflexivity. }
     destruct (eval_expr r0 s1) as [rres s2] eqn:Er.
-    destruct (IHr Hpr s1 rres s2 Hs1 Er) as (Hrr & Hfr & Hs2).
+    destruct (IHr Hpr Hnr s1 rres s2 Hs1 Er) as (Hrr & Hfr & Hs2).
     assert (Efx2: es_facts s2 = es_facts s) by (destruct Hfr as [A _]; congruence).
     rewrite Efx1 in Hrr. rewrite <- Hrr. rewrite Efx2 in H.
     assert (Hf2: frame s s2) by (eapply frame_trans; eauto).
     destruct (bin_combine o (es_facts s) lres rres) as [v| |] eqn:Bc; inversion H; subst r s'; fin.
     apply memo_sound_expr; auto. intros _. rewrite Efx2, fr_EBin, <- Hrl, Bf, Bs, <- Hrr. exact Bc.
   - (* AConst *)
-    intros c Hp s r s' Hs H. rewrite eval_atom_unfold in H; unfold eval_atom_miss in H.
+    intros c Hp Hn s r s' Hs H. rewrite eval_atom_unfold in H; unfold eval_atom_miss in H.
     destruct (lookup_atom (es_matom s) (AConst c)) as [v|] eqn:L.
     { inversion H; subst r s'. fin. eapply memo_hit_atom; eauto. }
     inversion H; subst r s'. rewrite fr_AConst. fin. apply memo_sound_atom; auto.
   - (* AVar *)
-    intros x IHx Hp s r s' Hs H. rewrite eval_atom_unfold in H; unfold eval_atom_miss in H.
+    intros x IHx Hp Hn s r s' Hs H. rewrite eval_atom_unfold in H; unfold eval_atom_miss in H.
+    pose proof (NA_var _ Hn) as Hnx.
     destruct (lookup_atom (es_matom s) (AVar x)) as [v|] eqn:L.
     { inversion H; subst r s'. fin. eapply memo_hit_atom; eauto. }
     destruct (eval_var x s) as [rx s1] eqn:Ex. simpl in Hp.
-    destruct (IHx Hp s rx s1 Hs Ex) as (Hr & Hf & Hs1). rewrite fr_AVar.
+    destruct (IHx Hp Hnx s rx s1 Hs Ex) as (Hr & Hf & Hs1). rewrite fr_AVar.
     destruct rx as [v| |]; inversion H; subst r s'; fin.
     apply memo_sound_atom; auto. intros _. destruct Hf as [Hf _]. rewrite Hf, fr_AVar. auto.
   - (* AFunc *)
-    intros f args IHargs Hp s r s' Hs H. rewrite eval_atom_unfold in H; unfold eval_atom_miss in H.
+    intros f args IHargs Hp Hn s r s' Hs H. rewrite eval_atom_unfold in H; unfold eval_atom_miss in H.
+    pose proof (NA_func _ _ Hn) as Hnl.
     simpl in Hp. apply andb_prop in Hp. destruct Hp as [Hnc Hpa].
     destruct (lookup_atom (es_matom s) (AFunc f args)) as [v|] eqn:L.
     { inversion H; subst r s'. fin. eapply memo_hit_atom; eauto. simpl. rewrite Hnc, Hpa. reflexivity. }
     destruct (eval_args args s) as [ra s1] eqn:Ea.
-    destruct (IHargs Hpa s ra s1 Hs Ea) as (Hr & Hf & Hs1).
+    destruct (IHargs Hpa Hnl s ra s1 Hs Ea) as (Hr & Hf & Hs1).
     assert (Efx1: es_facts s1 = es_facts s) by apply Hf.
     rewrite fr_AFunc, <- Hr. apply negb_true_iff in Hnc. rewrite Hnc.
     destruct ra as [vs| |]; try (inversion H; subst r s'; fin; fail).
@@ -366,18 +389,19 @@ Proof.
               end); try (intros H; exact H); try congruence. }
     rewrite Efx1 in Hgen. inversion Hgen; subst r s'. fin.
   - (* AMethod *)
-    intros a IHa f args IHargs Hp s r s' Hs H. rewrite eval_atom_unfold in H; unfold eval_atom_miss in H.
+    intros a IHa f args IHargs Hp Hn s r s' Hs H. rewrite eval_atom_unfold in H; unfold eval_atom_miss in H.
+    destruct (NA_method _ _ _ Hn) as [Hna Hnl].
     simpl in Hp. apply andb_prop in Hp. destruct Hp as [Hp Hpargs]. apply andb_prop in Hp. destruct Hp as [Hnm Hpa].
     destruct (lookup_atom (es_matom s) (AMethod a f args)) as [v|] eqn:L.
     { inversion H; subst r s'. fin. eapply memo_hit_atom; eauto. simpl. rewrite Hnm, Hpa, Hpargs. reflexivity. }
     apply negb_true_iff in Hnm.
     destruct (eval_atom a s) as [ra s1] eqn:Ea.
-    destruct (IHa Hpa s ra s1 Hs Ea) as (Hr & Hf & Hs1).
+    destruct (IHa Hpa Hna s ra s1 Hs Ea) as (Hr & Hf & Hs1).
     assert (Efx1: es_facts s1 = es_facts s) by apply Hf.
     rewrite fr_AMethod, <- Hr.
     destruct ra as [recv| |]; try (inversion H; subst r s'; fin; fail).
     destruct (eval_args args s1) as [rargs s2] eqn:Eargs.
-    destruct (IHargs Hpargs s1 rargs s2 Hs1 Eargs) as (Hr2 & Hf2 & Hs2).
+    destruct (IHargs Hpargs Hnl s1 rargs s2 Hs1 Eargs) as (Hr2 & Hf2 & Hs2).
     assert (Efx2: es_facts s2 = es_facts s) by (destruct Hf2 as [A _]; congruence).
     rewrite Efx1 in Hr2. rewrite <- Hr2.
     assert (Hf02: frame s s2) by (eapply frame_trans; eauto).
@@ -394,11 +418,12 @@ Proof.
     apply memo_sound_atom; auto. intros _.
     rewrite Efx3, fr_AMethod, <- Hr, <- Hr2. auto.
   - (* AMember *)
-    intros a IHa n Hp s r s' Hs H. rewrite eval_atom_unfold in H; unfold eval_atom_miss in H. simpl in Hp.
+    intros a IHa n Hp Hn s r s' Hs H. rewrite eval_atom_unfold in H; unfold eval_atom_miss in H. simpl in Hp.
+    pose proof (NA_member _ _ Hn) as Hna.
     destruct (lookup_atom (es_matom s) (AMember a n)) as [v|] eqn:L.
     { inversion H; subst r s'. fin. eapply memo_hit_atom; eauto. }
     destruct (eval_atom a s) as [ra s1] eqn:Ea.
-    destruct (IHa Hp s ra s1 Hs Ea) as (Hr & Hf & Hs1).
+    destruct (IHa Hp Hna s ra s1 Hs Ea) as (Hr & Hf & Hs1).
     assert (Efx1: es_facts s1 = es_facts s) by apply Hf.
     rewrite fr_AMember, <- Hr.
     destruct ra as [recv| |]; try (inversion H; subst r s'; fin; fail).
@@ -406,68 +431,73 @@ Proof.
     destruct (child_field_f (es_facts s) recv n) as [v| |] eqn:Ec; inversion H; subst r s'; fin.
     apply memo_sound_atom; auto. intros _. rewrite Efx1, fr_AMember, <- Hr. exact Ec.
   - (* ASel *)
-    intros a IHa sel IHsel Hp s r s' Hs H. rewrite eval_atom_unfold in H; unfold eval_atom_miss in H.
+    intros a IHa sel IHsel Hp Hn s r s' Hs H. rewrite eval_atom_unfold in H; unfold eval_atom_miss in H.
+    destruct (NA_sel _ _ Hn) as [Hna Hne].
     simpl in Hp. apply andb_prop in Hp. destruct Hp as [Hpa Hps].
     destruct (lookup_atom (es_matom s) (ASel a sel)) as [v|] eqn:L.
     { inversion H; subst r s'. fin. eapply memo_hit_atom; eauto. simpl. rewrite Hpa, Hps. reflexivity. }
     destruct (eval_atom a s) as [ra s1] eqn:Ea.
-    destruct (IHa Hpa s ra s1 Hs Ea) as (Hr & Hf & Hs1).
+    destruct (IHa Hpa Hna s ra s1 Hs Ea) as (Hr & Hf & Hs1).
     assert (Efx1: es_facts s1 = es_facts s) by apply Hf.
     rewrite fr_ASel, <- Hr.
     destruct ra as [recv| |]; try (inversion H; subst r s'; fin; fail).
     destruct (eval_expr sel s1) as [rk s2] eqn:Ek.
-    destruct (IHsel Hps s1 rk s2 Hs1 Ek) as (Hr2 & Hf2 & Hs2).
+    destruct (IHsel Hps Hne s1 rk s2 Hs1 Ek) as (Hr2 & Hf2 & Hs2).
     assert (Efx2: es_facts s2 = es_facts s) by (destruct Hf2 as [A _]; congruence).
     rewrite Efx1 in Hr2. rewrite <- Hr2.
     assert (Hf02: frame s s2) by (eapply frame_trans; eauto).
     destruct rk as [k| |]; inversion H; subst r s'; fin.
     unfold child_sel, arg_val. rewrite Efx2. reflexivity.
   - (* ANeg *)
-    intros a IHa Hp s r s' Hs H. rewrite eval_atom_unfold in H; unfold eval_atom_miss in H. simpl in Hp.
+    intros a IHa Hp Hn s r s' Hs H. rewrite eval_atom_unfold in H; unfold eval_atom_miss in H. simpl in Hp.
+    pose proof (NA_neg _ Hn) as Hna.
     destruct (lookup_atom (es_matom s) (ANeg a)) as [v|] eqn:L.
     { inversion H; subst r s'. fin. eapply memo_hit_atom; eauto. }
     destruct (eval_atom a s) as [ra s1] eqn:Ea.
-    destruct (IHa Hp s ra s1 Hs Ea) as (Hr & Hf & Hs1). rewrite fr_ANeg, <- Hr.
+    destruct (IHa Hp Hna s ra s1 Hs Ea) as (Hr & Hf & Hs1). rewrite fr_ANeg, <- Hr.
     destruct ra as [v| |]; inversion H; subst r s'; fin.
     apply memo_sound_atom; auto. intros _. destruct Hf as [Hf _]. rewrite Hf, fr_ANeg, <- Hr. reflexivity.
   - (* VName *)
-    intros n Hp s r s' Hs H. rewrite eval_var_unfold in H. rewrite fr_VName.
+    intros n Hp Hn s r s' Hs H. rewrite eval_var_unfold in H. rewrite fr_VName.
     destruct (alookup n (es_facts s)); inversion H; subst r s'; fin.
   - (* VMember *)
-    intros x IHx n Hp s r s' Hs H. rewrite eval_var_unfold in H. simpl in Hp.
+    intros x IHx n Hp Hn s r s' Hs H. rewrite eval_var_unfold in H. simpl in Hp.
+    pose proof (NV_member _ _ Hn) as Hnx.
     destruct (eval_var x s) as [rx s1] eqn:Ex.
-    destruct (IHx Hp s rx s1 Hs Ex) as (Hr & Hf & Hs1).
+    destruct (IHx Hp Hnx s rx s1 Hs Ex) as (Hr & Hf & Hs1).
     assert (Efx1: es_facts s1 = es_facts s) by apply Hf.
     rewrite fr_VMember, <- Hr.
     destruct rx as [v| |]; inversion H; subst r s'; fin.
     unfold child_field. rewrite Efx1. reflexivity.
   - (* VSel *)
-    intros x IHx sel IHsel Hp s r s' Hs H. rewrite eval_var_unfold in H.
+    intros x IHx sel IHsel Hp Hn s r s' Hs H. rewrite eval_var_unfold in H.
+    destruct (NV_sel _ _ Hn) as [Hnx Hne].
     simpl in Hp. apply andb_prop in Hp. destruct Hp as [Hpx Hps].
     destruct (eval_var x s) as [rx s1] eqn:Ex.
-    destruct (IHx Hpx s rx s1 Hs Ex) as (Hr & Hf & Hs1).
+    destruct (IHx Hpx Hnx s rx s1 Hs Ex) as (Hr & Hf & Hs1).
     assert (Efx1: es_facts s1 = es_facts s) by apply Hf.
     rewrite fr_VSel, <- Hr.
     destruct rx as [v| |]; try (inversion H; subst r s'; fin; fail).
     destruct (eval_expr sel s1) as [rk s2] eqn:Ek.
-    destruct (IHsel Hps s1 rk s2 Hs1 Ek) as (Hr2 & Hf2 & Hs2).
+    destruct (IHsel Hps Hne s1 rk s2 Hs1 Ek) as (Hr2 & Hf2 & Hs2).
     assert (Efx2: es_facts s2 = es_facts s) by (destruct Hf2 as [A _]; congruence).
     rewrite Efx1 in Hr2. rewrite <- Hr2.
     assert (Hf02: frame s s2) by (eapply frame_trans; eauto).
     destruct rk as [k| |]; inversion H; subst r s'; fin.
     unfold child_sel, arg_val. rewrite Efx2. reflexivity.
   - (* ENil *)
-    intros _ s r s' Hs H. rewrite eval_args_unfold in H. inversion H; subst r s'. fin.
+    intros _ _ s r s' Hs H. rewrite eval_args_unfold in H. inversion H; subst r s'. fin.
   - (* ECons *)
-    intros e IHe l IHl Hp s r s' Hs H. rewrite eval_args_unfold in H.
+    intros e IHe l IHl Hp Hn s r s' Hs H. rewrite eval_args_unfold in H.
+    destruct (NL_cons _ _ Hn) as [Hne Hnl].
     simpl in Hp. apply andb_prop in Hp. destruct Hp as [Hpe Hpl].
     destruct (eval_expr e s) as [re s1] eqn:Ee.
-    destruct (IHe Hpe s re s1 Hs Ee) as (Hr & Hf & Hs1).
+    destruct (IHe Hpe Hne s re s1 Hs Ee) as (Hr & Hf & Hs1).
     assert (Efx1: es_facts s1 = es_facts s) by apply Hf.
     rewrite fr_ECons, <- Hr.
     destruct re as [v| |]; try (inversion H; subst r s'; fin; fail).
     destruct (eval_args l s1) as [rl s2] eqn:El.
-    destruct (IHl Hpl s1 rl s2 Hs1 El) as (Hr2 & Hf2 & Hs2).
+    destruct (IHl Hpl Hnl s1 rl s2 Hs1 El) as (Hr2 & Hf2 & Hs2).
     rewrite Efx1 in Hr2. rewrite <- Hr2.
     assert (Hf02: frame s s2) by (eapply frame_trans; eauto).
     destruct rl as [vs| |]; inversion H; subst r s'; fin.
